@@ -234,6 +234,39 @@ def run(shard):
                 H.count("skipped:w5_encode:" + type(e).__name__)
             frozen_walk(hcd, "w5", [25])
 
+    # ---- hand-built near misses of a function's header: equal data must encode identically -----------------------
+    if shard.get("families") and shard.get("shard", 0) == 0:
+        import itertools
+        fcode = [c for c in compile("def f(a, b=1, *c, d=2, **e):\n    return a\n", "<args>", "exec", dont_inherit=True).co_consts if isinstance(c, H.CodeType)][0]
+        base = CodeData.from_code(fcode)
+        Args = cdm.Args
+        variants = []
+        names = ["a", "a", "b"]
+        for po in ((), ("a",), ("a", "a"), ("b",)):
+            for pk in ((), ("a",), ("a", "a"), ("a", "b"), ("b", "a")):
+                for vp in (None, "a", "c"):
+                    for ko in ((), ("a",), ("d",)):
+                        for vk in (None, "a", "e"):
+                            if H.PY < (3, 8) and po:
+                                continue
+                            variants.append(Args(positional_only=po, positional_or_keyword=pk, var_positional=vp, keyword_only=ko, var_keyword=vk))
+        rngv = H.rng_for(shard.get("seed", 0), "c08-args")
+        if len(variants) > 70:
+            variants = variants[:6] + rngv.sample(variants[6:], 64)
+        datas = []
+        for v in variants:
+            try:
+                datas.append((v, dc.replace(base, type=dc.replace(base.type, args=v))))
+            except Exception as e:
+                H.count("skipped:args_variant:" + type(e).__name__)
+        state["case"] = {"k": "families", "id": "w9-families", "part": "args near misses"}
+        for i in range(len(datas)):
+            for j in range(i, len(datas)):
+                H.count("checks:C08.args_near_miss")
+                check_pair(datas[i][1], datas[j][1], "hand-built %r vs %r" % (datas[i][0], datas[j][0]), encode=(i != j))
+                check_pair(datas[i][0], datas[j][0], "Args %r vs %r" % (datas[i][0], datas[j][0]),
+                           expect_equal=(dc.astuple(datas[i][0]) == dc.astuple(datas[j][0])))
+
     # ---- CodeData routes ---------------------------------------------------------------------------------
     bucket = []
     for case, id_, code, text in corpus.iter_cases(shard):
